@@ -236,6 +236,27 @@ CHECKS['C19'] = dict(
          'checked in the dedicated-process arm.',
     technique='Hypothesis property-based testing with tagged callbacks + permutation metamorphic relation')
 
+# dimensions added after the ninth seeded round (appended to the level texts)
+ROUND9 = {
+    'C01': ' Replay-time policies for missing entries are also declared on the unchanged code; recorded calls raise '
+           'KeyError / LookupError as well.',
+    'C02': ' Output data handlers may fail during the replay only.',
+    'C03': ' Edited programs may call discard_recording / force_sample_recording during the replay.',
+    'C04': ' Fault kinds include an alias resolver that raises or lacks the placeholder.',
+    'C05': ' Fault kinds include failing alias resolution; operations end with ordinary exceptions of several types.',
+    'C06': ' Wrapped functions may mutate their arguments in place.',
+    'C09': ' Histories include replays whose run-original fallback fails.',
+    'C10': ' Saves and re-saves may go through a second cassette object over the same storage.',
+    'C11': ' Input results include values that cannot be compared with == (array-like, identity equality); replays '
+           'by code that renamed its inputs (old alias as fallback) and reads every input twice.',
+    'C12': ' Recordings may end with abort_recording instead of a save.',
+    'C14': ' Random filters include lists of up to 40 alternatives.',
+    'C18': ' Fault kinds include failing alias resolution; operations end with ordinary exceptions of several types.',
+    'C20': ' The same output path may be sent twice after a rewrite with the same size and modification time.',
+}
+for _pid, _t in ROUND9.items():
+    CHECKS[_pid]['text'] += _t
+
 ENGINES = [
     ('procfault', 'pbt/procfault.py', 'Equalizer process-fault harness: fault scripts executed by user callbacks, '
                                       'slow-kill schedule control, task pipe, /proc child observation', ['C08', 'C13']),
